@@ -460,6 +460,51 @@ def run(ck: Check) -> None:
             ck.mismatch_kinds["file-history"] = ck.mismatch_kinds.get("file-history", 0) + 1
             if len(ck.mismatches) < 10:
                 ck.mismatches.append({"corr": "corr:file-histories/results+final-contents", "line": ln[:1500], "impl": bad, "model": ans[:300], "tag": "file-history", "meta": {}, "stdout_encoding": "utf-8"})
+    # a stored file opened in the interactive editor and written out unchanged (menu: 0 = write) is persisted like any other: same value, canonical bytes,
+    # every signature entry as it was (displaying the metadata, or "tidying" on save, changes nothing)
+    import subprocess, sys
+    edd = os.path.join(d, "editor-roundtrip")
+    os.makedirs(edd, exist_ok=True)
+    ka, kb = gen.key(1), gen.key(2)
+    long_hdr = gen.realistic_hdr(rng)
+    while len(long_hdr) < 60:
+        long_hdr = gen.realistic_hdr(rng)
+    ed_docs = []
+    r1 = gen.envelope(gen.root_md([ka, kb], 2, [gen.key(9)], 1, version=3))
+    data1 = gen.oracle_bytes(r1["signed"])
+    r1["signatures"][ka.hex] = gen.gpg_entry(ka, data1, long_hdr)                       # an OpenPGP entry with a long hashed area
+    r1["signatures"][kb.hex] = gen.raw_entry(kb, data1)                                # a raw entry on root metadata
+    ed_docs.append(("root-mixed-entries", r1))
+    k1 = gen.envelope(gen.delegating_md("key_mgr", {"pkg_mgr": gen.delegation([gen.key(8)], 1)}, version=2))
+    k1["signatures"][ka.hex] = gen.gpg_entry(ka, gen.oracle_bytes(k1["signed"]), long_hdr)      # an OpenPGP entry on non-root metadata
+    k1["signatures"]["junk"] = "x"
+    k1["signatures"][kb.hex.upper()] = gen.raw_entry(kb, gen.oracle_bytes(k1["signed"]))
+    ed_docs.append(("key_mgr-gpg-entry", k1))
+    for label, doc_ in ed_docs:
+        src, out_ = os.path.join(edd, label + ".json"), os.path.join(edd, label + ".out.json")
+        with open(src, "wb") as f:
+            f.write(gen.oracle_bytes(doc_))
+        if os.path.exists(out_):
+            os.unlink(out_)
+        env_ = dict(os.environ, PYTHONPATH=os.environ.get("CCT_REPO", "/repo"), PYTHONDONTWRITEBYTECODE="1", PYTHONIOENCODING="utf-8")
+        p_ = subprocess.run([sys.executable, "-m", "conda_content_trust", "modify-metadata", src], input=("0\n" + out_ + "\n").encode(), env=env_, cwd=edd,
+                            stdout=subprocess.PIPE, stderr=subprocess.PIPE, timeout=120)
+        ck.evaluations += 1
+        ck.oracle_checks += 1
+        ck.count("editor-roundtrip:exit%d" % p_.returncode)
+        got_ = open(out_, "rb").read() if os.path.exists(out_) else None
+        if got_ is None:
+            ck.count("editor-roundtrip:nothing-written")            # (an editor that refuses to write is C17's business, not a persistence question)
+            continue
+        if got_ != gen.oracle_bytes(doc_) or open(src, "rb").read() != gen.oracle_bytes(doc_):
+            try:
+                import json as _json
+                back_ = _json.loads(got_)
+                lost = sorted(proto.label(k_) for k_ in doc_["signatures"] if k_ not in back_.get("signatures", {}) or back_["signatures"][k_] != doc_["signatures"][k_])
+            except Exception:  # noqa: BLE001
+                lost = ["<file does not parse>"]
+            ck.violation("a stored file opened in the editor and written out unchanged does not hold the same envelope (entries dropped or altered)",
+                         {"document": label, "entries_dropped_or_altered": lost[:6]}, "editor-roundtrip:" + label)
     # any JSON value survives write + load, not only envelopes: top-level strings (also ones that look like JSON text), numbers, arrays, null
     for v in ["123", "null", '{"a": 1}', "\u00e9", "", " ", '"quoted"', "[1, 2]", 5, -1, 1.5, True, None, [1, "a"], [], {}, "x" * 70, "\ud800", gen.rand_json(rng, 3, [10]),
               "[" * 1500, {"note": "{" * 2500, "list": ["[{" * 600]}, {"signatures": {}, "signed": {"description": "]" * 1200 + "[" * 1300}}, "2.5\" drives // see https://example.org"]:
